@@ -11,7 +11,7 @@ ENGINES = {
   'C08': 'transport', 'C11': 'transport', 'C09': 'resurrect',
   'C13': 'muxwire', 'C15': 'kafkawire',
   'C14': 'thriftwire', 'C20': 'proxy',
-  'C07': 'pool', 'C18': 'varz', 'C19': 'zk', 'C06': 'aperture', 'C03': 'balancer', 'C04': 'balancer', 'C05': 'balancer',
+  'C07': 'pool', 'C18': 'varz', 'C19': 'zk', 'C06': 'aperture', 'C16': 'share', 'C17': 'async_', 'C03': 'balancer', 'C04': 'balancer', 'C05': 'balancer',
 }
 
 
